@@ -36,6 +36,26 @@ fn run_pp(gram: Gram, src: &str, incomplete: bool) -> Result<Result<(SyntaxTree,
     }
 }
 
+/// does strict parsing of the prefix that the incomplete-mode tree covers give that same tree?  (None: no verdict)
+fn prefix_agrees(gram: Gram, src: &str) -> Option<bool> {
+    use sv_parser_parser::{lib_parser, sv_parser, Span, SpanInfo};
+    let (itree, text) = match run_pp(gram, src, true) {
+        Ok(Ok(x)) => x,
+        _ => return None,
+    };
+    let st = mon_tile::check_leaves(&itree, &text, false).ok()?;
+    let prefix = &text[..st.end];
+    let r = lib(|| {
+        let span = Span::new_extra(prefix, SpanInfo::default());
+        match gram {
+            Gram::Sv => sv_parser(span).map(|(_, t)| exact_skeleton(&t)).map_err(|_| ()),
+            Gram::Lib => lib_parser(span).map(|(_, t)| exact_skeleton(&t)).map_err(|_| ()),
+        }
+    })
+    .ok()?;
+    Some(matches!(r, Ok(s) if s == exact_skeleton(&itree)))
+}
+
 pub fn run_case(env: &Env, ctx: &mut Ctx, idx: u64) {
     let mut rng = Rng::derive(ctx.seed, 15, idx, 0);
     let mut inp = workload::tree_input(env, &mut rng);
@@ -149,7 +169,12 @@ pub fn run_case(env: &Env, ctx: &mut Ctx, idx: u64) {
                         (Ok(Ok((t2, _))), Ok(Ok(s2))) => exact_skeleton(&t2) == s2,
                         _ => false,
                     };
-                    let (sig, note) = crate::memo_cfg::attribute(env, if agree_unbounded { "K3" } else { "" });
+                    // K4 triage: a keywords directive changes the keyword set as a parse side effect that backtracking does
+                    // not undo, so text in front of the directive can end up parsed under the set it selects; attributed
+                    // when the source holds such directives and blanking exactly them removes the disagreement
+                    let has_kw = src.contains("`begin_keywords") || src.contains("`end_keywords");
+                    let k4 = !agree_unbounded && has_kw && prefix_agrees(gram, &crate::props::c17::strip_keywords_directives(&src)) == Some(true);
+                    let (sig, note) = crate::memo_cfg::attribute(env, if agree_unbounded { "K3" } else if k4 { "K4" } else { "" });
                     ctx.violation("prefix-not-complete-descriptions", &sig, &format!("{}{}", m, note), witness(&m));
                 }
             }
